@@ -275,6 +275,19 @@ def _cells():
     OKM("in:hybrid:rank1_4x3", "hybrid", "compute", [{"gen": "psvd", "m": 4, "n": 3, "sigma": [1.0, 0.0, 0.0], "seed": 3}])
     OKM("in:cgne:zero4x2", "cgne", "compute", [{"gen": "zeros", "m": 4, "n": 2}])
     OKM("in:hybrid:zero4x2", "hybrid", "compute", [{"gen": "zeros", "m": 4, "n": 2}])
+    # Hermitian only up to rounding (Q D Q^H as computed, not symmetrised afterwards) at several
+    # scales: what users actually have; a Hermitian test with an absolute tolerance rejects it at
+    # large scale, an exact-equality test rejects it at every scale
+    for sc in (1.0, 1e8, 1e12, 1e-8):
+        for n_ in (2, 4):
+            Hr = {"gen": "scale", "c": sc, "of": {"gen": "herm", "n": n_, "seed": 90 + n_, "raw": True,
+                                                  "lam": [2.0, -1.0, 0.5, -0.25][:n_]}}
+            tag = f"{n_}_{sc:g}"
+            OK(f"in:eig:rounding_{tag}", "decomp.quaternion_eigendecomposition", [Hr])
+            OK(f"in:eigenvalues:rounding_{tag}", "decomp.quaternion_eigenvalues", [Hr])
+            OK(f"in:eigenvectors:rounding_{tag}", "decomp.quaternion_eigenvectors", [Hr])
+            OK(f"in:tridiagonalize:rounding_{tag}", "decomp.tridiagonalize", [Hr])
+            OK(f"in:det_moore:rounding_{tag}", "utils.det", [Hr, "Moore"])
     # uniformly scaled (still regular / Hermitian / full-rank) inputs: a guard with an absolute
     # threshold must not start rejecting them
     for sc in (1e-9, 1e-6, 1e6, 1e9):
